@@ -35,10 +35,14 @@
 #include "http-parser/http_parser.h"
 #include "http_connection.h"
 #include "http_server.h"
+#include "list.h"
 #include "log.h"
 #include "util.h"
 
 #define CRLF "\r\n"
+
+/* All connections that were set up by init_http_connection2() and are not released yet. */
+static LIST_HEAD(connection_list);
 
 static int on_url(http_parser *parser, const char *at, size_t length)
 {
@@ -104,7 +108,24 @@ void free_connection(void *context)
 	struct buffered_reader *br = &connection->br;
 	br->close(br->this_ptr);
 
+	if (connection->next_connection.next != NULL) {
+		list_del(&connection->next_connection);
+	}
 	cjet_free(connection);
+}
+
+void free_all_http_connections(void)
+{
+	struct list_head *item;
+	struct list_head *tmp;
+	list_for_each_safe (item, tmp, &connection_list) {
+		struct http_connection *connection = list_entry(item, struct http_connection, next_connection);
+		if (connection->free_context != NULL) {
+			connection->free_context(connection);
+		} else {
+			free_connection(connection);
+		}
+	}
 }
 
 int send_http_error_response(struct http_connection *connection)
@@ -150,6 +171,7 @@ static enum bs_read_callback_return read_start_line(void *context, uint8_t *buf,
 int init_http_connection2(struct http_connection *connection, const struct http_server *server, struct buffered_reader *reader, bool is_local_connection,
                          unsigned int compression_level)
 {
+	list_add_tail(&connection->next_connection, &connection_list);
 	connection->is_local_connection = is_local_connection;
 	connection->status_code = 0;
 	connection->server = server;
@@ -168,7 +190,13 @@ int init_http_connection2(struct http_connection *connection, const struct http_
 	br->writev = reader->writev;
 	br->set_error_handler = reader->set_error_handler;
 
-	return br->read_until(br->this_ptr, CRLF, read_start_line, connection);
+	int ret = br->read_until(br->this_ptr, CRLF, read_start_line, connection);
+	if (unlikely(ret < 0)) {
+		/* The caller releases the connection on its own. */
+		list_del(&connection->next_connection);
+		connection->next_connection.next = NULL;
+	}
+	return ret;
 }
 
 int init_http_connection(struct http_connection *connection, const struct http_server *server, struct buffered_reader *reader, bool is_local_connection)
@@ -178,5 +206,10 @@ int init_http_connection(struct http_connection *connection, const struct http_s
 
 struct http_connection *alloc_http_connection(void)
 {
-	return cjet_malloc(sizeof(struct http_connection));
+	struct http_connection *connection = cjet_malloc(sizeof(struct http_connection));
+	if (likely(connection != NULL)) {
+		connection->next_connection.next = NULL;
+		connection->next_connection.prev = NULL;
+	}
+	return connection;
 }
